@@ -93,6 +93,10 @@ Theorem C08_check_cell3_sound : forall n g gp x y z,
   curve_ok3 n g gp -> x < 2 ^ n -> y < 2 ^ n -> z < 2 ^ n ->
   check_cell 3 n (g (x, y, z)) (gp (x / 2, y / 2, z / 2)) (map g (nbrs3 n x y z)) = true.
 Proof. exact check_cell3_sound. Qed.
+Theorem C08_check_table2_sound : forall n g gp, curve_ok2 n g gp -> check_table2 n g gp = true.
+Proof. exact check_table2_sound. Qed.
+Theorem C08_check_table3_sound : forall n g gp, curve_ok3 n g gp -> check_table3 n g gp = true.
+Proof. exact check_table3_sound. Qed.
 Print Assumptions C08_hilbert2_curve_ok.
 Print Assumptions C08_hilbert3_curve_ok.
 Print Assumptions C08_check_cell2_sound.
